@@ -36,20 +36,28 @@ const (
 	fBackendLoss              // a backend connection may be lost at any point
 	fTimeout                  // a request timeout is configured and time may pass
 	fPoolAny                  // (engine option) sync.Pool may hand out any pooled object
+	fBackendErr               // a backend may answer any request with an error reply
+	fSplitReplies             // a backend read may end with the first bytes of the next reply
+	fWideBatches              // up to two events per descriptor while poller tasks are pending
 )
 
 const verifTimeoutMs = 50
 
 type vReq struct {
-	kind  int
-	bytes []byte
-	want  []byte // expected reply
+	kind    int
+	seq     int
+	bytes   []byte
+	want    []byte // expected reply
+	errored bool   // a backend answered (a fragment of) it with an error
 }
 
-// verifKey builds a key whose slot is that of "a" (node B) or "b" (node A) and whose last byte is
-// arbitrary: "{a}<x>" / "{b}<x>".
-func verifKey(label string, tag byte) []byte {
-	return []byte{'{', tag, '}', verifrt.Byte(label)}
+func errFor(seq int) []byte { return []byte("-ERR boom" + string(rune('0'+seq)) + "\r\n") }
+
+// verifKey builds a key whose slot is that of "a" (node B) or "b" (node A), which carries the
+// sequence number of its request (so the harness can tell requests apart without guessing) and
+// whose last byte is arbitrary: "{a}<n><x>" / "{b}<n><x>".
+func verifKey(label string, tag byte, seq int) []byte {
+	return []byte{'{', tag, '}', byte('0' + seq), verifrt.Byte(label)}
 }
 
 func bulk(b []byte) []byte {
@@ -58,22 +66,23 @@ func bulk(b []byte) []byte {
 	return append(out, '\r', '\n')
 }
 
-func mkReq(kind int) *vReq {
-	r := &vReq{kind: kind}
+func mkReq(kind, seq int) *vReq {
+	r := &vReq{kind: kind, seq: seq}
 	tag := func(l string) byte {
 		return byte(verifrt.Concretize(int(verifrt.IteByte(verifrt.Bool(l), 'a', 'b'))))
 	}
 	switch kind {
 	case kGet:
-		k := verifKey("key", tag("node"))
+		k := verifKey("key", tag("node"), seq)
 		r.bytes = core.VerifEncode([]byte("get"), k)
 		r.want = bulk(k)
 	case kSet:
-		k := verifKey("key", tag("node"))
+		k := verifKey("key", tag("node"), seq)
 		r.bytes = core.VerifEncode([]byte("set"), k, []byte{verifrt.Byte("val")})
 		r.want = []byte("+OK\r\n")
 	case kMget2:
-		k1, k2 := verifKey("key", tag("node")), verifKey("key", tag("node"))
+		k1, k2 := verifKey("key", tag("node"), seq), verifKey("key", tag("node"), seq)
+		verifrt.Assume(k1[4] != k2[4]) // duplicate keys are C07's subject
 		r.bytes = core.VerifEncode([]byte("mget"), k1, k2)
 		r.want = append([]byte("*2\r\n"), append(bulk(k1), bulk(k2)...)...)
 	case kPing:
@@ -216,6 +225,25 @@ type vBackend struct {
 	conn     *core.VerifConn
 	answered int
 	lost     bool
+	partial  []byte // rest of a reply whose first bytes were already delivered
+}
+
+// syncBackends keeps one vBackend per backend connection, ordered by (address, dial sequence).
+func syncBackends(w *core.VerifWorld, old []*vBackend) []*vBackend {
+	var out []*vBackend
+	for _, sc := range w.SortedServers() {
+		var b *vBackend
+		for _, o := range old {
+			if o.conn == sc {
+				b = o
+			}
+		}
+		if b == nil {
+			b = &vBackend{conn: sc}
+		}
+		out = append(out, b)
+	}
+	return out
 }
 
 type vClient struct {
@@ -259,73 +287,107 @@ func HarnessWorld(prop, m1, m2, steps, kinds, faults int) {
 		for i := 0; i < m; i++ {
 			kind := allowed[verifrt.Choice("kind", len(allowed))]
 			verifrt.Assume(kind != kQuit || i == m-1) // nothing after QUIT is owed a reply
-			cl.reqs = append(cl.reqs, mkReq(kind))
+			cl.reqs = append(cl.reqs, mkReq(kind, ci*4+i))
 		}
 		clients = append(clients, cl)
 	}
-	faulty := faults&(fClientHangup|fUnownedB|fDialFailB|fBackendLoss|fTimeout) != 0
+	faulty := faults&(fClientHangup|fUnownedB|fDialFailB|fBackendLoss|fTimeout) != 0 // proxy-generated errors may occur
 	var backs []*vBackend
-	pendingTasks := 0
+	// While poller tasks are pending, the real loop handles at most the rest of the current epoll
+	// batch and one more batch before it runs them: every descriptor gets at most `perFd` more events.
+	perFd := 1
+	if faults&fWideBatches != 0 {
+		perFd = 2
+	}
+	touched := map[int]int{}
 	timeouts := 0
 	backendLost := false
 	lastEvent := -1
 	for s := 0; s < steps; s++ {
-		for len(backs) < len(w.Servers) {
-			backs = append(backs, &vBackend{conn: w.Servers[len(backs)]})
-		}
+		backs = syncBackends(w, backs)
 		type ev struct{ kind, arg int }
 		var enabled []ev
-		if w.TasksPending() {
+		pending := w.TasksPending()
+		if pending {
 			enabled = append(enabled, ev{1, 0})
 		}
-		if !w.TasksPending() || pendingTasks < 2 {
-			for i, cl := range clients {
-				if cl.sent < len(cl.reqs) && cl.conn.Opened() && !cl.hungUp {
-					enabled = append(enabled, ev{0, i})
-				}
-				if faults&fClientHangup != 0 && !cl.hungUp && cl.conn.Opened() && cl.sent > 0 {
-					enabled = append(enabled, ev{3, i})
-				}
+		may := func(fd int) bool { return !pending || touched[fd] < perFd }
+		for i, cl := range clients {
+			if cl.sent < len(cl.reqs) && cl.conn.Opened() && !cl.hungUp && may(cl.conn.Fd) {
+				enabled = append(enabled, ev{0, i})
 			}
-			for j, b := range backs {
-				if b.lost || !b.conn.Opened() {
-					continue
-				}
-				_, got := core.VerifRedisParse(w.Sent(b.conn))
-				if b.answered < len(got) {
-					enabled = append(enabled, ev{2, j})
-				}
-				if faults&fBackendLoss != 0 && !backendLost {
-					enabled = append(enabled, ev{4, j})
-				}
+			if faults&fClientHangup != 0 && !cl.hungUp && cl.conn.Opened() && cl.sent > 0 && may(cl.conn.Fd) {
+				enabled = append(enabled, ev{3, i})
 			}
-			if faults&fTimeout != 0 && timeouts < 1 && s > 0 {
-				enabled = append(enabled, ev{5, 0})
+		}
+		for j, b := range backs {
+			if b.lost || !b.conn.Opened() || !may(b.conn.Fd) {
+				continue
 			}
+			_, got := core.VerifRedisParse(w.Sent(b.conn))
+			if b.answered < len(got) || b.partial != nil {
+				enabled = append(enabled, ev{2, j})
+			}
+			if faults&fBackendLoss != 0 && !backendLost {
+				enabled = append(enabled, ev{4, j})
+			}
+		}
+		if faults&fTimeout != 0 && timeouts < 1 && s > 0 && !pending {
+			enabled = append(enabled, ev{5, 0})
 		}
 		if len(enabled) == 0 {
 			break
 		}
 		e := enabled[verifrt.Choice("event", len(enabled))]
 		lastEvent = e.kind
+		evFd := -1
 		switch e.kind {
 		case 0:
 			cl := clients[e.arg]
+			evFd = cl.conn.Fd
 			w.Feed(cl.conn, cl.reqs[cl.sent].bytes)
 			cl.sent++
 		case 1:
 			w.RunTasks()
 		case 2:
 			b := backs[e.arg]
-			_, got := core.VerifRedisParse(w.Sent(b.conn))
-			w.Feed(b.conn, replyFor(got[b.answered]))
-			b.answered++
+			evFd = b.conn.Fd
+			var data []byte
+			if b.partial != nil {
+				data, b.partial = b.partial, nil
+				b.answered++
+			} else {
+				_, got := core.VerifRedisParse(w.Sent(b.conn))
+				g := got[b.answered]
+				data = replyFor(g)
+				if faults&fBackendErr != 0 && len(g) > 1 && len(g[1]) == 5 && verifrt.Choice("backend_error", 2) == 1 {
+					seq := int(g[1][3] - '0')
+					data = errFor(seq)
+					for _, cl := range clients {
+						for _, r := range cl.reqs {
+							if r.seq == seq && (r.kind == kGet || r.kind == kSet || r.kind == kMget2) {
+								r.errored = true
+							}
+						}
+					}
+				}
+				b.answered++
+				// the same read may already carry the first bytes of the next reply
+				if faults&fSplitReplies != 0 && b.answered < len(got) && verifrt.Choice("with_prefix_of_next", 2) == 1 {
+					next := replyFor(got[b.answered])
+					data = append(append([]byte{}, data...), next[:3]...)
+					b.partial = next[3:]
+				}
+			}
+			w.Feed(b.conn, data)
 		case 3:
 			cl := clients[e.arg]
+			evFd = cl.conn.Fd
 			cl.hungUp = true
 			w.HangUp(cl.conn)
 		case 4:
 			b := backs[e.arg]
+			evFd = b.conn.Fd
 			b.lost = true
 			backendLost = true
 			w.HangUp(b.conn)
@@ -333,13 +395,14 @@ func HarnessWorld(prop, m1, m2, steps, kinds, faults int) {
 			timeouts++
 			verifrt.Sleep(verifTimeoutMs + 20)
 		}
+		if !w.TasksPending() || !pending {
+			// tasks were drained, or this very event queued the first task: a new counting period
+			touched = map[int]int{}
+		} else if evFd >= 0 {
+			touched[evFd]++
+		}
 		if faults&fTimeout != 0 {
 			w.Timeout() // the sweep runs at the end of every poller iteration
-		}
-		if w.TasksPending() {
-			pendingTasks++
-		} else {
-			pendingTasks = 0
 		}
 		verifrt.Assert(!w.Shutdown, "proxy_keeps_running")
 
@@ -354,13 +417,21 @@ func HarnessWorld(prop, m1, m2, steps, kinds, faults int) {
 				// C01: the replies received so far are, position by position, the replies owed
 				verifrt.Assert(len(replies) <= cl.sent, "C01_no_more_replies_than_requests")
 				for j, r := range replies {
-					verifrt.Assert(len(r) == len(cl.reqs[j].want) && isPrefix(r, cl.reqs[j].want), "C01_replies_in_request_order")
+					want := cl.reqs[j].want
+					if cl.reqs[j].errored {
+						want = errFor(cl.reqs[j].seq)
+					}
+					verifrt.Assert(len(r) == len(want) && isPrefix(r, want), "C01_replies_in_request_order")
 				}
 			case 3, 15, 16:
 				// C03: every delivered reply is this client's own reply for that position, or a proxy error
 				verifrt.Assert(len(replies) <= cl.sent, "C03_no_more_replies_than_requests")
 				for j, r := range replies {
-					own := len(r) == len(cl.reqs[j].want) && isPrefix(r, cl.reqs[j].want)
+					want := cl.reqs[j].want
+					if cl.reqs[j].errored {
+						want = errFor(cl.reqs[j].seq)
+					}
+					own := len(r) == len(want) && isPrefix(r, want)
 					verifrt.Assert(verifrt.Or(own, faulty && isProxyError(r)), "C03_reply_belongs_to_this_request")
 				}
 			case 9:
@@ -401,7 +472,7 @@ func HarnessWorld(prop, m1, m2, steps, kinds, faults int) {
 	}
 	for _, b := range backs {
 		_, got := core.VerifRedisParse(w.Sent(b.conn))
-		if b.answered < len(got) && !b.lost && b.conn.Opened() {
+		if (b.answered < len(got) || b.partial != nil) && !b.lost && b.conn.Opened() {
 			quiet = false
 		}
 	}
@@ -447,7 +518,8 @@ func HarnessWorld(prop, m1, m2, steps, kinds, faults int) {
 	verifrt.Cover("end", true)
 }
 
-// containsArgs: does the backend request g carry (a fragment of) client request r?
+// containsArgs: does the backend request g carry (a fragment of) client request r? Keys carry the
+// request's sequence number in their 4th byte, so this is a concrete comparison.
 func containsArgs(r *vReq, g [][]byte) bool {
 	if r.kind != kGet && r.kind != kSet && r.kind != kMget2 {
 		return false
@@ -457,21 +529,10 @@ func containsArgs(r *vReq, g [][]byte) bool {
 		return false
 	}
 	args := parsed[0]
-	if string(g[0]) != string(args[0]) {
+	if string(g[0]) != string(args[0]) || len(g) < 2 || len(g[1]) != 5 || len(args[1]) != 5 {
 		return false
 	}
-	for _, k := range g[1:] {
-		found := false
-		for _, a := range args[1:] {
-			if len(a) == len(k) && verifrt.Concretize(verifrt.Ite(verifBytesEq(a, k), 1, 0)) == 1 {
-				found = true
-			}
-		}
-		if !found {
-			return false
-		}
-	}
-	return true
+	return g[1][3] == args[1][3]
 }
 
 // HarnessPipe is the one-client, fault-free instance used by C01 / C09 / C10.
